@@ -2,7 +2,7 @@
 Surface syntax of the literal fragment of filter expressions (text, meaning, well-formedness) and
 the predicates that say "the parser's tree means b".  Used by the text-level theorems of C06.
 -/
-import Proofs.Lemmas.C06Tok
+import Proofs.Lemmas.C06Regex
 import Model.Spec.FilterSem
 import Model.Proc.FilterText
 namespace C06
@@ -10,24 +10,34 @@ open Proc.Tok Proc.ParseFilter C07 Proc.FilterText
 open Proc.FilterEval (ReOracle Res)
 open Spec.FilterSem (denote denoteAll denoteAny termHolds)
 
-/-- surface syntax of the literal fragment of filter expressions: a word is given by its text and
-its value; `paren` holds an OR of juxtapositions; the `Bool` of an item says that it is written
-with `AND` in front (ignored for the first item of a juxtaposition) -/
+/-- a value as written: a word (bare or quoted; `val` is its value) or a regular expression
+`/val/` (`re = true`, `val` is the source) -/
+structure SV where
+  re : Bool
+  txt : Bytes
+  val : Bytes
+
+/-- the tree leaf's matcher: a literal, or the oracle index of the regexp source -/
+def SV.matcher (v : SV) : Proc.FilterEval.Matcher := if v.re then .re (reId v.val) else .lit v.val
+
+/-- surface syntax of filter expressions: a key is given by its text and its value, a value by an
+`SV`; `paren` holds an OR of juxtapositions; the `Bool` of an item says that it is written with
+`AND` in front (ignored for the first item of a juxtaposition) -/
 inductive S
   | paren (alts : List (List (Bool × S)))
   | neg (m : S)
   | star
-  | term (kt kv vt vv : Bytes)
-  | list (kt kv : Bytes) (vs : List (Bytes × Bytes))
+  | term (kt kv : Bytes) (v : SV)
+  | list (kt kv : Bytes) (vs : List SV)
 
 def sepAND : Bytes := 0x20 :: (wAND ++ [0x20])
 def sepOR : Bytes := 0x20 :: (wOR ++ [0x20])
 
 /-- `a₁ OR a₂ OR … OR aₙ` as written (each item: text and value) -/
-def renderVs : List (Bytes × Bytes) → Bytes
+def renderVs : List SV → Bytes
   | [] => []
-  | [p] => p.1
-  | p :: q :: r => p.1 ++ (0x20 :: (wOR ++ 0x20 :: renderVs (q :: r)))
+  | [p] => p.txt
+  | p :: q :: r => p.txt ++ (0x20 :: (wOR ++ 0x20 :: renderVs (q :: r)))
 
 mutual
 /-- the text of a term -/
@@ -35,7 +45,7 @@ def render : S → Bytes
   | .paren alts => cLP :: (renderE alts ++ [cRP])
   | .neg m => cDash :: render m
   | .star => [cStar]
-  | .term kt _ vt _ => kt ++ cColon :: vt
+  | .term kt _ v => kt ++ cColon :: v.txt
   | .list kt _ vs => kt ++ cColon :: cLP :: (renderVs vs ++ [cRP])
 /-- the items of a juxtaposition after the first: each preceded by " " or " AND " -/
 def renderT : List (Bool × S) → Bytes
@@ -58,8 +68,8 @@ def sem (re : ReOracle) (res : Res) (i : Nat) : S → Bool
   | .paren alts => semE re res i alts
   | .neg m => !sem re res i m
   | .star => true
-  | .term _ kv _ vv => termHolds re res i kv (.lit vv)
-  | .list _ kv vs => vs.any fun p => termHolds re res i kv (.lit p.2)
+  | .term _ kv v => termHolds re res i kv v.matcher
+  | .list _ kv vs => vs.any fun p => termHolds re res i kv p.matcher
 def semT (re : ReOracle) (res : Res) (i : Nat) : List (Bool × S) → Bool
   | [] => true
   | (_, s) :: r => sem re res i s && semT re res i r
@@ -68,14 +78,19 @@ def semE (re : ReOracle) (res : Res) (i : Nat) : List (List (Bool × S)) → Boo
   | a :: r => semT re res i a || semE re res i r
 end
 
+/-- a well-formed value: a word in value position, or `/src/` whose scan ends at the top level and
+which compiles; the flag says which -/
+def okV (cx : Ctx) (v : SV) : Prop := ∃ k, Val cx k v.txt v.val ∧ (k == kR) = v.re
+
 mutual
-/-- well-formedness: the words are words, lists and juxtapositions are non-empty -/
+/-- well-formedness: the words are words, the regular expressions scan and compile, lists and
+juxtapositions are non-empty -/
 def okS (cx : Ctx) : S → Prop
   | .paren alts => alts ≠ [] ∧ okE cx alts
   | .neg m => okS cx m
   | .star => True
-  | .term kt kv vt vv => (∃ k, Word cx false k kt kv) ∧ (∃ k, Word cx true k vt vv)
-  | .list kt kv vs => (∃ k, Word cx false k kt kv) ∧ vs ≠ [] ∧ ∀ p, p ∈ vs → ∃ k, Word cx true k p.1 p.2
+  | .term kt kv v => (∃ k, Word cx false k kt kv) ∧ okV cx v
+  | .list kt kv vs => (∃ k, Word cx false k kt kv) ∧ vs ≠ [] ∧ ∀ p, p ∈ vs → okV cx p
 def okT (cx : Ctx) : List (Bool × S) → Prop
   | [] => True
   | (_, s) :: r => okS cx s ∧ okT cx r
@@ -189,23 +204,33 @@ theorem GoodT.not {t : Filter} {b : Meaning} (h : GoodT t b) :
   obtain ⟨t', e, d⟩ := h
   exact ⟨.not t', by simp [toTree, toTrees, e], fun re res i => by simp [denote, d]⟩
 
-theorem GoodT.lit (kv vv : Bytes) (off : Int) :
-    GoodT (.lit kv vv off) (fun re res i => termHolds re res i kv (.lit vv)) :=
-  ⟨.mtch kv off.toNat (.lit vv), by simp [toTree], fun re res i => by simp [denote]⟩
+/-- the leaf the parser builds for a value -/
+def leafSV (kv : Bytes) (v : SV) (off : Int) : Filter :=
+  if v.re then .re kv v.val off else .lit kv v.val off
+
+theorem GoodT.leaf (kv : Bytes) (v : SV) (off : Int) :
+    GoodT (leafSV kv v off) (fun re res i => termHolds re res i kv v.matcher) := by
+  refine ⟨.mtch kv off.toNat v.matcher, ?_, fun re res i => by simp [denote]⟩
+  unfold leafSV SV.matcher
+  cases v.re <;> simp [toTree]
 
 theorem GoodT.star : GoodT (.op .and []) (fun _ _ _ => true) :=
   ⟨.and [], by simp [toTree, toTrees], fun re res i => by simp [denote, denoteAll]⟩
 
-theorem GoodT.lits (kv : Bytes) (off : Int) (vs : List (Bytes × Bytes)) :
-    GoodT (.op .or (vs.map fun p => .lit kv p.2 off))
-      (fun re res i => vs.any fun p => termHolds re res i kv (.lit p.2)) := by
-  have h : ∀ vs : List (Bytes × Bytes), toTrees (vs.map fun p => Filter.lit kv p.2 off) =
-      some (vs.map fun p => .mtch kv off.toNat (.lit p.2)) := by
+theorem GoodT.leaves (kv : Bytes) (off : Int) (vs : List SV) :
+    GoodT (.op .or (vs.map fun p => leafSV kv p off))
+      (fun re res i => vs.any fun p => termHolds re res i kv p.matcher) := by
+  have h : ∀ vs : List SV, toTrees (vs.map fun p => leafSV kv p off) =
+      some (vs.map fun p => .mtch kv off.toNat p.matcher) := by
     intro vs
     induction vs with
     | nil => simp [toTrees]
-    | cons p r ih => simp [toTrees, toTree, ih]
-  refine ⟨.or (vs.map fun p => .mtch kv off.toNat (.lit p.2)), by simp [toTree, h], fun re res i => ?_⟩
+    | cons p r ih =>
+      have hp : toTree (leafSV kv p off) = some (.mtch kv off.toNat p.matcher) := by
+        unfold leafSV SV.matcher
+        cases p.re <;> simp [toTree]
+      simp [toTrees, hp, ih]
+  refine ⟨.or (vs.map fun p => .mtch kv off.toNat p.matcher), by simp [toTree, h], fun re res i => ?_⟩
   simp only [denote]
   induction vs with
   | nil => simp [denoteAny]
